@@ -6,6 +6,8 @@
     Nodes are [nat] (indices into the adjacency list); a graph is the list of the successor
     lists in the order in which the Rust iterators yield them. *)
 From WG Require Import Base.Prelude.
+
+Module SccM.
 Local Open Scope nat_scope.
 
 Definition graph := list (list nat).
@@ -346,3 +348,7 @@ Definition same_partitionb (c1 c2 : list nat) : bool :=
   (length c1 =? length c2)
   && forallb (fun u => forallb (fun v =>
        Bool.eqb (nth u c1 0 =? nth v c1 0) (nth u c2 0 =? nth v c2 0)) (seq 0 (length c1))) (seq 0 (length c1)).
+
+
+End SccM.
+Export SccM.
